@@ -307,6 +307,7 @@ func (t *tailBuf) Write(p []byte) (int, error) {
 func (t *tailBuf) String() string { t.mu.Lock(); defer t.mu.Unlock(); return string(t.b) }
 
 func checkC(h History) *core.Violation {
+	countCells(h)
 	return onExistingFile(h, runC(h, h.dbMode()), func() *core.Violation { return runC(h, "fresh") })
 }
 
@@ -511,7 +512,11 @@ func runC(h History, mode string) *core.Violation {
 	for _, l := range r.lmod {
 		g, ok := gotL[l.Name]
 		if !ok {
-			return core.V("restart|listeners|not-restored|"+l.Kind, "listener %q (%s) is not running after the restart", l.Name, l.Kind)
+			sig := "restart|listeners|not-restored|" + l.Kind
+			if kindOf(l) == "https" {
+				sig = "restart|listeners|not-restored|https|" + nameClassOf(l.Name)
+			}
+			return core.V(sig, "listener %q (%s) is not running after the restart", clipS(l.Name), kindOf(l))
 		}
 		if g.Kind != l.Kind {
 			return core.V("restart|listener|kind-differs", "listener %q is a %s listener after the restart, was %s", l.Name, g.Kind, l.Kind)
@@ -552,8 +557,8 @@ func runC(h History, mode string) *core.Violation {
 				return diff("Headers", fmt.Sprintf("%q", gc.Headers), fmt.Sprintf("%q", hs.Headers))
 			case !eqList(gc.Uris, hs.Uris):
 				return diff("Uris", fmt.Sprintf("%q", gc.Uris), fmt.Sprintf("%q", hs.Uris))
-			case gc.Secure:
-				return diff("Secure", gc.Secure, false)
+			case gc.Secure != hs.Secure:
+				return diff("Secure", gc.Secure, hs.Secure)
 			case gc.PortConn != hs.PortConn:
 				return diff("PortConn", gc.PortConn, hs.PortConn)
 			case gc.HostHeader != hs.HostHeader:
@@ -588,7 +593,9 @@ func genC(t *rapid.T) History {
 	// HTTP listeners matter most here (it is their restore that maps many fields): make a third of the adds HTTP
 	for i := range ops {
 		if ops[i].K == "ladd" && ops[i].L != nil && ops[i].L.Kind != "http" && rapid.IntRange(0, 2).Draw(t, "http-instead") == 0 {
-			ops[i].L = &LSpec{Kind: "http", Name: ops[i].L.Name, HTTP: genHTTP(t)}
+			ops[i].L = &LSpec{Kind: "http", Name: ops[i].L.Name, NC: ops[i].L.NC, HTTP: genHTTP(t)}
+			// ... and some of those HTTPS (the restarted server generates the certificate again)
+			ops[i].L.HTTP.Secure = rapid.IntRange(0, 7).Draw(t, "https-instead") == 0
 		}
 	}
 	h.Ops = append(h.Ops, ops...)
@@ -602,7 +609,7 @@ func TestC10c(t *testing.T) {
 	}
 	core.Run(t, core.Spec[History]{
 		Property: "C10", Sub: "c",
-		Rule: "histories as in (a) (1-4 agents, 0-16 operations, one third of the listener adds HTTP on ephemeral ports) plus restart operations in the middle and the crafted update / re-registration families; the first segment is applied in-process, at every effective restart the rest of the history moves to a NEW child process that first runs the real (*Teamserver).Start() on the directory and then applies the following operations to that server (extra.segments_under_real_start); finally a child process runs the real (*Teamserver).Start() on the same directory and reports its sessions (25 recorded values, key, IV, Parent, Links) and its listeners (handlers.HTTPConfig / SMBConfig / ExternalConfig as started). Oracle: restarted state == state of the server before the restart: same active sessions and values, same parent/child structure among them (no nil entries), same listeners with every operator-configured field (Hosts, HostBind, HostRotation, PortBind, PortConn, UserAgent, Headers, Uris, HostHeader, Secure, Proxy; PipeName; Endpoint). Non-trivial as in (a) ADDED: a quarter of the histories are pivot-tree histories with restarts at any point as in (a) (3-5 agents, 3-8 events): every restartx hands the rest of the history to a new child process under the real Start(); each child reports the sessions, Parent and Links it holds right after Start() and the rows of TS_Links, which are compared with the sessions active before that restart and the model of the link events; the final real restart is compared in the same way (signatures any-point-restart|..., links|two-rows-for-one-child)",
+		Rule: "histories as in (a) (1-4 agents, 0-16 operations, one third of the listener adds HTTP on ephemeral ports) plus restart operations in the middle and the crafted update / re-registration families; the first segment is applied in-process, at every effective restart the rest of the history moves to a NEW child process that first runs the real (*Teamserver).Start() on the directory and then applies the following operations to that server (extra.segments_under_real_start); finally a child process runs the real (*Teamserver).Start() on the same directory and reports its sessions (25 recorded values, key, IV, Parent, Links) and its listeners (handlers.HTTPConfig / SMBConfig / ExternalConfig as started). Oracle: restarted state == state of the server before the restart: same active sessions and values, same parent/child structure among them (no nil entries), same listeners with every operator-configured field (Hosts, HostBind, HostRotation, PortBind, PortConn, UserAgent, Headers, Uris, HostHeader, Secure, Proxy; PipeName; Endpoint). Non-trivial as in (a) ADDED: a quarter of the histories are pivot-tree histories with restarts at any point as in (a) (3-5 agents, 3-8 events): every restartx hands the rest of the history to a new child process under the real Start(); each child reports the sessions, Parent and Links it holds right after Start() and the rows of TS_Links, which are compared with the sessions active before that restart and the model of the link events; the final real restart is compared in the same way (signatures any-point-restart|..., links|two-rows-for-one-child) ADDED: listener names also from the kind x name class product of (a); one in eight of the HTTP listeners is HTTPS (Secure=true: the restarted server generates the certificate again); Secure is compared; a missing HTTPS listener is reported as restart|listeners|not-restored|https|<name class>",
 		Gen:   genC, Check: checkC, Classify: classifyH,
 		Assumptions: []string{
 			"the restarted server is observed through its exported fields (Agents, Listeners) once Start() has appended the profile event, its last action before blocking",
